@@ -72,6 +72,24 @@ Theorem max_alive_bounded : forall max p acts, (max_alive (run_sched max p acts)
 Proof. exact max_alive_proof. Qed.
 Print Assumptions max_alive_bounded.
 
+(* client mode (both in-process server kinds, reference and grpc-go): the batches of BOTH kinds are in the one
+   plan the one semaphore rules, so the bound holds across the kinds, in particular at the hand-over *)
+Theorem both_server_kinds_in_plan : forall lib sel order c g,
+  In g order ->
+  batch_cases lib sel c (mkPeer true false) g <> [] ->
+  batch_cases lib sel c (mkPeer false true) g <> [] ->
+  In (mkBatch 0%nat c.(p_ref) true g (batch_cases lib sel c (mkPeer true false) g))
+     (plan lib sel order [c] (peers_of true)) /\
+  In (mkBatch 0%nat c.(p_ref) false g (batch_cases lib sel c (mkPeer false true) g))
+     (plan lib sel order [c] (peers_of true)).
+Proof. exact both_server_kinds_in_plan_proof. Qed.
+Print Assumptions both_server_kinds_in_plan.
+Theorem bounded_across_server_kinds : forall max lib sel order clients acts,
+  always_bounded max (run_sched max (plan lib sel order clients (peers_of true)) acts).(trace) /\
+  (max_alive (run_sched max (plan lib sel order clients (peers_of true)) acts).(trace) <= max)%nat.
+Proof. exact bounded_across_server_kinds_proof. Qed.
+Print Assumptions bounded_across_server_kinds.
+
 (* at any moment, what was sent for a batch is a prefix of its permutations in order: nothing
    twice, nothing foreign; and nothing is sent for a batch recorded as setup failure *)
 Theorem never_twice : forall max p acts k b,
